@@ -306,6 +306,8 @@ func (client *client) setError(err error) {
 func (client *client) writeLoop() {
 	var err error
 	srv := client.server
+	// AUTH packets written during an enhanced authentication, before the client id is settled
+	var handshake []packets.Packet
 	defer func() {
 		if re := recover(); re != nil {
 			err = errors.New(fmt.Sprint(re))
@@ -374,7 +376,17 @@ func (client *client) writeLoop() {
 			if err != nil {
 				return
 			}
-			srv.statsManager.packetSent(packet, client.opts.ClientID)
+			if _, ok := packet.(*packets.Auth); ok && !client.IsConnected() {
+				// the client id is known only when the authentication is over: the client's record gets the packet then
+				srv.statsManager.packetSentTotal(packet)
+				handshake = append(handshake, packet)
+			} else {
+				for _, p := range handshake {
+					srv.statsManager.clientPacketSent(p, client.opts.ClientID)
+				}
+				handshake = nil
+				srv.statsManager.packetSent(packet, client.opts.ClientID)
+			}
 			if _, ok := packet.(*packets.Disconnect); ok {
 				_ = client.rwc.Close()
 				return
